@@ -310,7 +310,7 @@ class TreeSpace(Space):
         if min_depth == max_depth:
             # Generates a terminal identifier
             terminal_id = int(
-                r.generate_uniform_random_number(0, self.n_terminals))
+                r.generate_uniform_random_number(0, self.n_terminals)[0])
 
             # Return the terminal node with its id and corresponding position
             return Node(name=terminal_id, type='TERMINAL', value=self.terminals[terminal_id].position)
@@ -319,7 +319,7 @@ class TreeSpace(Space):
         else:
             # Generates a node identifier
             node_id = int(r.generate_uniform_random_number(
-                0, len(self.functions) + self.n_terminals))
+                0, len(self.functions) + self.n_terminals)[0])
 
             # If the identifier is a terminal
             if node_id >= len(self.functions):
